@@ -8,8 +8,11 @@ import (
 	"math/rand"
 	"sort"
 	"strings"
+	"sync"
+	"time"
 
 	"github.com/icon-project/goloop/common"
+	"github.com/icon-project/goloop/common/errors"
 	"github.com/icon-project/goloop/common/wallet"
 	"github.com/icon-project/goloop/module"
 
@@ -33,7 +36,7 @@ func init() {
 			}
 			return 16
 		},
-		Rule: "each case = one real service stack (basic platform, harness genesis: 8 EOAs with balances from 0 to rich, stepPrice in {0,1,12500000000}, default/input/contractCall step costs, invoke step limit sometimes below the transactions' limits) and a chain of 3 blocks of 1-24 signed v3 transactions executed through service.NewTransition: plain transfers (value 0 / small / all-but-fee / exactly balance-minus-max-fee / more than balance), self transfers, transfers to fresh and to contract-typed addresses, messages with 0-600 data bytes, calls to the chain SCORE that succeed / hit an unknown method / are denied / run out of step / carry value, step limits at the minimum, minimum-1 (only in blocks that must be refused or whose bound violation the oracle would see), exact, generous; several transactions per sender. Blocks run with validated=false (must pass cumulative pre-validation) and validated=true (proposer path: reaches the execution-time out-of-balance branches). Oracle: ledger replayed from the receipts (fee = stepUsed x stepPrice of the receipt, value moves iff status is success) compared with EVERY account of the resulting account trie, treasury delta = sum of fees, sum of balances unchanged, bounds default-step charge <= stepUsed <= min(stepLimit, invoke limit), no negative balance in the trie or in the replay. Non-trivial = distinct executed block (sequence of kind/status/value-class/limit-class) with a non-zero step price and at least one failed transaction or several transactions of one sender.",
+		Rule: "each case = one real service stack (basic platform, harness genesis: 8 EOAs with balances from 0 to rich, stepPrice in {0,1,12500000000}, default/input/contractCall step costs, invoke step limit sometimes below the transactions' limits) and a chain of 3 blocks of 1-24 signed v3 transactions executed through service.NewTransition: plain transfers (value 0 / small / all-but-fee / exactly balance-minus-max-fee / more than balance), self transfers, transfers to fresh and to contract-typed addresses, messages with 0-600 data bytes, calls to the chain SCORE that succeed / hit an unknown method / are denied / run out of step / carry value, step limits at the minimum, minimum-1 (only in blocks that must be refused or whose bound violation the oracle would see), exact, generous; several transactions per sender. 40 % of the stacks use the concurrent executor (chain concurrency level 4); two thirds of their blocks are a lock-chain pattern (T0 X->A whose first execution ends in an injected retryable executor failure after a pause = reset + re-run, T1 Y->A of a sender without funds that fails before touching A, T2 A->Z, then 8-13 unrelated transfers), and 4 % of all other transactions get one injected retryable executor failure (Platform.OnTransactionEnd hook). Blocks run with validated=false (must pass cumulative pre-validation) and validated=true (proposer path: reaches the execution-time out-of-balance branches). Oracle: ledger replayed from the receipts (fee = stepUsed x stepPrice of the receipt, value moves iff status is success) compared with EVERY account of the resulting account trie, treasury delta = sum of fees, sum of balances unchanged, bounds default-step charge <= stepUsed <= min(stepLimit, invoke limit), no negative balance in the trie or in the replay. Non-trivial = distinct executed block (sequence of kind/status/value-class/limit-class) with a non-zero step price and at least one failed transaction or several transactions of one sender.",
 		MinNonTrivial: func(t string) int {
 			if t == ev.Thorough {
 				return 2500
@@ -42,7 +45,8 @@ func init() {
 		},
 		Required: []string{"blocks_executed", "tx_success", "tx_failed", "tx_status_OutOfBalance", "tx_status_OutOfStep",
 			"tx_uncharged_out_of_balance", "tx_transfer_success", "tx_call_success", "tx_value_call_failed", "blocks_refused_at_validation",
-			"accounts_compared", "blocks_validated_false", "blocks_validated_true", "price_nonzero_blocks", "invoke_limit_truncation"},
+			"accounts_compared", "blocks_validated_false", "blocks_validated_true", "price_nonzero_blocks", "invoke_limit_truncation",
+			"blocks_concurrent_executor", "conc_pattern_blocks", "conc_pattern_middle_tx_failed_before_touching_shared_account", "executor_failures_injected"},
 		Assumptions: []string{
 			"no fee sharing / deposits are configured (the statement excludes fee sharing)",
 			"the receipt is the transaction's reported result; the ledger model trusts status/stepUsed/stepPrice and checks their consequences and bounds",
@@ -94,6 +98,55 @@ type env struct {
 	invokeLim  int64
 	chainScore *common.Address
 	fresh      []module.Address
+	conc       int
+	mu         sync.Mutex
+	scripts    map[string]*script
+	injected   int
+	overtook   int
+}
+
+// script of the platform's OnTransactionEnd hook for one transaction.
+type script struct {
+	signal  chan struct{} // closed when this transaction reached the end of its execution
+	waitFor chan struct{} // first execution: wait for this (or 40 ms), then fail once with ExecutionFailError
+	fired   bool
+}
+
+// hook runs inside Platform.OnTransactionEnd: schedule perturbation and
+// injection of one retryable executor failure (what an EE crash yields: the
+// executor resets the transaction's state and runs it again).
+func (e *env) hook(idx int32, id []byte) error {
+	e.mu.Lock()
+	sc := e.scripts[string(id)]
+	if sc == nil {
+		e.mu.Unlock()
+		return nil
+	}
+	if sc.signal != nil {
+		select {
+		case <-sc.signal:
+		default:
+			close(sc.signal)
+		}
+	}
+	if sc.fired || (sc.waitFor == nil && sc.signal != nil) {
+		e.mu.Unlock()
+		return nil
+	}
+	sc.fired = true
+	e.injected++
+	w := sc.waitFor
+	e.mu.Unlock()
+	if w != nil {
+		select {
+		case <-w:
+			e.mu.Lock()
+			e.overtook++
+			e.mu.Unlock()
+		case <-time.After(40 * time.Millisecond):
+		}
+	}
+	return errors.ExecutionFailError.New("verif: injected executor failure")
 }
 
 func pickPrice(r *rand.Rand) *big.Int {
@@ -108,7 +161,10 @@ func pickPrice(r *rand.Rand) *big.Int {
 }
 
 func newEnv(r *rand.Rand) (*env, error) {
-	e := &env{}
+	e := &env{scripts: map[string]*script{}, conc: 1}
+	if r.Intn(5) < 2 {
+		e.conc = 4 // the concurrent executor (chain concurrency level)
+	}
 	e.price = pickPrice(r)
 	e.defCost = []int64{100000, 1000, 100000, 7}[r.Intn(4)]
 	e.inputCost = []int64{200, 0, 3, 200}[r.Intn(4)]
@@ -140,11 +196,13 @@ func newEnv(r *rand.Rand) (*env, error) {
 		bal = append(bal, b)
 	}
 	st, err := feefix.New(feefix.Config{
-		StepPrice:  e.price,
-		StepCosts:  map[string]int64{"default": e.defCost, "input": e.inputCost, "contractCall": e.callCost, "get": 1, "set": 2, "eventLog": 3, "apiCall": 4},
-		StepLimits: map[string]int64{"invoke": e.invokeLim, "query": 50000000},
-		Balances:   bal,
-		GovBalance: new(big.Int).Mul(unit, big.NewInt(1000000)),
+		StepPrice:   e.price,
+		StepCosts:   map[string]int64{"default": e.defCost, "input": e.inputCost, "contractCall": e.callCost, "get": 1, "set": 2, "eventLog": 3, "apiCall": 4},
+		StepLimits:  map[string]int64{"invoke": e.invokeLim, "query": 50000000},
+		Balances:    bal,
+		GovBalance:  new(big.Int).Mul(unit, big.NewInt(1000000)),
+		Concurrency: e.conc,
+		TxEndHook:   e.hook,
 	})
 	if err != nil {
 		return nil, err
@@ -180,6 +238,13 @@ func (e *env) plan(r *rand.Rand, bal map[string]*big.Int, ts int64, nonce int64,
 		p.from = r.Intn(2) // rich senders: several transactions of one sender per block
 	}
 	k := r.Intn(100)
+	if e.conc > 1 {
+		// no contract calls under the concurrent executor: on the unchanged tree
+		// CallHandler.Prepare -> contractManager.PrepareContractStore has a data
+		// race (storageCache.status) and contractStoreImpl.Dispose can block for
+		// ever for system SCORE calls (found here; outside this property)
+		k = r.Intn(60)
+	}
 	var data interface{}
 	dataType := ""
 	callBytes := 0
@@ -404,7 +469,41 @@ func (e *env) block(c *ev.Ctx, r *rand.Rand, parent *feefix.Block, ts int64, non
 	wantInvalid := !validated && r.Intn(6) == 0
 	n := 1 + r.Intn(24)
 	var plan []*planTx
-	for len(plan) < n {
+	pattern := e.conc > 1 && r.Intn(3) != 0
+	if pattern {
+		// Lock-chain pattern for the concurrent executor: T0 X->A (its first
+		// execution ends in an injected executor failure after a pause, so it
+		// is reset and re-run), T1 Y->A of a sender without funds (fails before
+		// touching A), T2 A->Z, then unrelated transactions that keep the
+		// dispatcher busy. Whatever the interleaving, the ledger must hold.
+		validated, wantInvalid, n = true, false, 0
+		mk := func(from int, to module.Address, v int64) *planTx {
+			*nonce++
+			p := &planTx{kind: kTransfer, from: from, to: to, value: big.NewInt(v), stepLimit: big.NewInt(e.defCost + 1000),
+				minStep: e.defCost, valueCls: "pattern", limitCls: "enough"}
+			tx, err := feefix.SignedTx(feefix.TxSpec{From: e.wallet(from), To: to, Value: p.value, StepLimit: p.stepLimit, Timestamp: ts, Nonce: big.NewInt(*nonce)})
+			if err != nil {
+				panic(err)
+			}
+			p.tx = tx
+			return p
+		}
+		a := e.wallet(1).Address()
+		t0 := mk(0, a, int64(1+r.Intn(1000)))
+		t1 := mk(2, a, int64(1+r.Intn(1000))) // wallet 2 owns nothing
+		t2 := mk(1, e.fresh[r.Intn(len(e.fresh))], int64(1+r.Intn(1000)))
+		plan = append(plan, t0, t1, t2)
+		for i := 0; i < 8+r.Intn(6); i++ {
+			plan = append(plan, mk(3+r.Intn(5), wallet.New().Address(), int64(r.Intn(50))))
+		}
+		done := make(chan struct{})
+		e.mu.Lock()
+		e.scripts[string(t2.tx.ID())] = &script{signal: done}
+		e.scripts[string(t0.tx.ID())] = &script{waitFor: done}
+		e.mu.Unlock()
+		c.Count("conc_pattern_blocks", 1)
+	}
+	for !pattern && len(plan) < n {
 		*nonce++
 		p := e.plan(r, gen, ts-int64(r.Intn(500)), *nonce, validated || wantInvalid)
 		if !validated && !wantInvalid {
@@ -445,6 +544,15 @@ func (e *env) block(c *ev.Ctx, r *rand.Rand, parent *feefix.Block, ts int64, non
 	if len(plan) == 0 {
 		return nil
 	}
+	if !pattern {
+		for _, p := range plan {
+			if r.Intn(25) == 0 {
+				e.mu.Lock()
+				e.scripts[string(p.tx.ID())] = &script{}
+				e.mu.Unlock()
+			}
+		}
+	}
 	txs := make([]module.Transaction, len(plan))
 	wit := make([]wtx, len(plan))
 	for i, p := range plan {
@@ -481,6 +589,17 @@ func (e *env) block(c *ev.Ctx, r *rand.Rand, parent *feefix.Block, ts int64, non
 		return nil
 	}
 	c.Count("blocks_executed", 1)
+	e.mu.Lock()
+	c.Count("executor_failures_injected", e.injected)
+	c.Count("conc_pattern_successor_overtook_running_predecessor", e.overtook)
+	e.injected, e.overtook = 0, 0
+	e.mu.Unlock()
+	if e.conc > 1 {
+		c.Count("blocks_concurrent_executor", 1)
+	}
+	if pattern && rcts[1].Status() != module.StatusSuccess {
+		c.Count("conc_pattern_middle_tx_failed_before_touching_shared_account", 1)
+	}
 	if validated {
 		c.Count("blocks_validated_true", 1)
 	} else {
